@@ -1,8 +1,8 @@
 (* C16 - Heap construction lays out header and content exactly; cloning is the identity.
    `pad` is the (arbitrary, universally quantified) prior content of the allocation. *)
-Require Import Bytes Outcome Layout Common TagType Mbi MbiTags Build CastFacts BuildFacts C16Proofs.
+Require Import Bytes Outcome Layout Common TagType Mbi MbiTags Build TagEq CastFacts BuildFacts C16Proofs TagEqProofs.
 
-(* new_boxed::<DynSizedStructure<H>>(header, slices), for each of the five header kinds, both profiles,
+(* new_boxed::<DynSizedStructure<H>>(header, slices), for each of the six header kinds (the five of the crates and a user-defined 12-byte one), both profiles,
    every list of slices whose total fits the 32-bit size field *)
 Theorem C16_layout : forall p h hdr slices pad,
   len hdr = hsize h ->
@@ -53,3 +53,15 @@ Theorem C16_clone_kind : forall p k img pad, is_dst k = true -> wf_img img ->
   clone_dyn p HTagH (kind_tdesc k) img pad = clone_dyn p HTagH (tdesc_generic HTagH) img pad.
 Proof. exact clone_kind. Qed.
 Print Assumptions C16_clone_kind.
+
+(* "Cloning any dynamically sized tag yields an equal tag" in the sense of the type's own PartialEq (Model/TagEq.v):
+   the clone of every dynamically sized built-in kind compares equal to the original *)
+Theorem C16_clone_eq : forall p k img pad c,
+  is_dst k = true -> wf_img img -> len pad >= 8 ->
+  kind_base k <= le (slice img 4 4) -> (le (slice img 4 4) - kind_base k) mod tail_esize k = 0 ->
+  clone_dyn p HTagH (kind_tdesc k) img pad = Val c ->
+  let n := (le (slice img 4 4) - kind_base k) / tail_esize k in
+  tag_eqb k {| m_base := 0; m_bytes := img |} {| t_off := 0; t_meta := Some n |}
+            {| m_base := 0; m_bytes := c |} {| t_off := 0; t_meta := Some n |} = true.
+Proof. exact clone_is_equal. Qed.
+Print Assumptions C16_clone_eq.
